@@ -110,6 +110,32 @@ def _se3_norm_product(op):
     return fn
 
 
+def _optimizer_update(kind):
+    """Graph.optimize applies an ARBITRARY solver output dx to SE(3)/SE(2) vertices: unit quaternion / angle range after
+    the update (whatever the size of the increment), i.e. the inductive step for 'after any number of iterations'"""
+
+    def fn(P, g):
+        from .graphkit import install_stubs, structure_graph
+
+        env = install_stubs(P, g)
+        kinds = [kind, kind, kind]
+        graph, verts, eobjs, ids = structure_graph(P, g, kinds, [(0, 1), (1, 2), (2, 0)], {0}, symbolic_ids=False, m=3)
+        import warnings
+
+        with warnings.catch_warnings():
+            warnings.simplefilter("ignore")
+            graph.optimize(tol=0.0, max_iter=1, fix_first_pose=False, verbose=False)
+        for i, v in enumerate(verts):
+            P.check("type_kept_%d" % i, type(v.pose).__name__ == "Pose" + kind)
+            if kind == "SE3":
+                q = v.pose[3:]
+                P.check_eq("unit_after_update_%d" % i, q[0] * q[0] + q[1] * q[1] + q[2] * q[2] + q[3] * q[3], 1.0, tol=1e-9)
+            else:
+                P.check("range_after_update_%d" % i, P.both(v.pose[2] >= -P.np.pi, v.pose[2] <= P.np.pi))
+
+    return fn
+
+
 def _rot(x, y, z, w):
     return [
         [w * w + x * x - y * y - z * z, 2 * (x * y - z * w), 2 * (x * z + y * w)],
@@ -167,5 +193,7 @@ def cases(tier):
         out.append(Case("se3-" + op, _se3(op), timeout=20, old_timeout=40, validate=v))
     for op in ["add", "sub", "inverse", "copy", "boxplus", "iadd"]:
         out.append(Case("se3-normproduct-" + op, _se3_norm_product(op), timeout=20, old_timeout=40, validate=v))
+    for kind in ("SE2", "SE3"):
+        out.append(Case("optimizer-update-" + kind, _optimizer_update(kind), timeout=20, old_timeout=40, validate=1, val_tol=1e-6, shadow=False))
     out.append(Case("se3-normalize", _normalize, timeout=30, old_timeout=60, validate=v))
     return out
